@@ -83,3 +83,13 @@ func (q *VerifSegmentQueue) Len() int {
 	defer q.q.mutex.Unlock()
 	return len(q.q.queue)
 }
+
+// TryLen returns the queue length without waiting for the queue's mutex;
+// ok is false when the mutex is held.
+func (q *VerifSegmentQueue) TryLen() (n int, ok bool) {
+	if !q.q.mutex.TryLock() {
+		return 0, false
+	}
+	defer q.q.mutex.Unlock()
+	return len(q.q.queue), true
+}
